@@ -18,7 +18,7 @@ func init() {
 		Explanation: "Decides the flow-control mechanism of RuleGroup.Eval, not data-dependent skip counts: R1 every path from the rule loop to Eval's return resets Skip, SkipAfter and a phase-scoped AllowType (path query over the SSA CFG); " +
 			"R2 every exit edge of the rule loop is classified by its guard facts and an allow-caused exit is impossible in the logging phase unless it is allow:phase (facts on the exit edge: AllowType==All needs phase!=Logging, AllowType==Request needs phase in {1,2}); " +
 			"R3 Skip/SkipAfter/AllowType have a frozen writer set and are read only by the rule loop, and Transaction.Allow stores its argument under exactly the guard RuleEngine==On; R4 exclusion lists, pending marker, skip counter and allow switch are all decided before r.Evaluate within the same iteration (facts at the call; no same-iteration path from a skipping edge to the call), a marker clears SkipAfter only on equality, the skip counter is decremented exactly once per skipped rule, an iteration bypasses the counter only for a documented cause (phase filter, removal by ctl, pending skipAfter), and the removal lists a ctl can extend are read inside the rule loop only (no snapshot); " +
-			"R5 a chain member with an explicit disruptive action is rejected and the pending chain discarded on that path; R6 allow:request is reset inside the loop only at phase 2; R7 the flow and disruptive actions of a fired rule (skip, skipAfter, allow, deny ...) are evaluated under no condition other than the chain result, the chain-starter test and the action type — in particular not depending on interruption, engine mode or phase; R8 the SecMarker and SecAction directives add their rule to the rule group on every successful path.",
+			"R5 a chain member with an explicit disruptive action is rejected and the pending chain discarded on that path; R6 allow:request is reset inside the loop only at phase 2; R7 the flow and disruptive actions of a fired rule (skip, skipAfter, allow, deny ...) are evaluated under no condition other than the chain result, the chain-starter test and the action type — in particular not depending on interruption, engine mode or phase; R8 the SecMarker and SecAction directives add their rule to the rule group on every successful path. R7 also: every write of an action record in appendRuleAction writes all of Key, Value, F and Atype.",
 		NotDecided: []string{
 			"exact number of rules skipped for data-dependent matches",
 			"chain link ordering beyond C01.R6",
@@ -427,6 +427,9 @@ func runC08(c *an.Ctx) {
 		c.MinCount("R4", "iterations bypassing the skip counter", nCont, 2)
 	}
 
+	// ---- R7 (cont.) an action of the list is the whole (name, argument, function, class) record
+	c08ActionRecords(c)
+
 	// ---- R6 allow:request reset inside the loop only at phase 2.
 	for _, fs := range c.P.StoresToField(pkgWAF, "Transaction", "AllowType") {
 		if fs.Fn == m.fn && m.loop.Blocks[fs.Store.Block()] {
@@ -772,4 +775,69 @@ func c08RemovalPredicates(c *an.Ctx, m *evalModel) []*c08Pred {
 		out = append(out, p)
 	})
 	return out
+}
+
+// c08ActionRecords: the rule parser keeps an action list of ruleAction records {Key, Value, F, Atype}.  Every place
+// of appendRuleAction that writes such a record writes all four fields: when a later disruptive action takes the
+// slot of an earlier one, keeping the old Value turns `pass ... allow:phase` into a bare `allow`.
+func c08ActionRecords(c *an.Ctx) {
+	fn := c.FnOpt("internal/seclang.appendRuleAction")
+	if fn == nil {
+		return
+	}
+	rt := c.P.LookupType("internal/seclang", "ruleAction")
+	if rt == nil {
+		return
+	}
+	st, ok := rt.Underlying().(*types.Struct)
+	if !ok {
+		return
+	}
+	var all []string
+	for i := 0; i < st.NumFields(); i++ {
+		all = append(all, st.Field(i).Name())
+	}
+	// writes grouped by the record they go into (a local literal, or an element of the list)
+	groups := map[string]map[string]bool{}
+	pos := map[string]token.Pos{}
+	whole := map[string]bool{}
+	an.Instrs(fn, func(in ssa.Instruction) {
+		s, ok := in.(*ssa.Store)
+		if !ok {
+			return
+		}
+		if fa, ok := s.Addr.(*ssa.FieldAddr); ok && strings.HasSuffix(strings.TrimPrefix(fa.X.Type().String(), "*"), "seclang.ruleAction") {
+			g := tempName.ReplaceAllString(an.Expr(fa.X), "")
+			if al, isAl := fa.X.(*ssa.Alloc); isAl {
+				g = fmt.Sprintf("literal@%d", al.Pos())
+			}
+			if groups[g] == nil {
+				groups[g] = map[string]bool{}
+				pos[g] = s.Pos()
+			}
+			groups[g][an.FieldVar(fa).Name()] = true
+			return
+		}
+		// whole-record store into the list: the value is a literal checked as its own group
+		if ia, ok := s.Addr.(*ssa.IndexAddr); ok && strings.HasSuffix(ia.Type().String(), "seclang.ruleAction") {
+			whole[tempName.ReplaceAllString(an.Expr(ia), "")] = true
+		}
+	})
+	n := 0
+	for _, g := range sortedKeys(groups) {
+		n++
+		var missing []string
+		for _, f := range all {
+			if !groups[g][f] {
+				missing = append(missing, f)
+			}
+		}
+		what := "record " + fmt.Sprint(n)
+		if !strings.HasPrefix(g, "literal@") {
+			what = "record " + g
+		}
+		c.Check(len(missing) == 0, "R7", "appendRuleAction: "+what+" is written with all its fields", pos[g], strings.Join(all, ", "),
+			"this write of an action record leaves "+strings.Join(missing, ", ")+" as it was: when the record replaces an earlier action (a second disruptive action in the list) the new action runs with the old action's "+strings.Join(missing, "/"))
+	}
+	c.MinCount("R7", "action records written by appendRuleAction", n, 2)
 }
